@@ -46,6 +46,9 @@ const (
 	NumBuiltin
 )
 
+// MaxSBurst is the longest burst of scalar loads (one register each, s40..s63).
+const MaxSBurst = 24
+
 // Op is one step of a program. Value-producing ops append one value.
 type Op struct {
 	// Kind: "const", "bin", "sel", "load", "sload", "lds", "loop", "if", "ifload", "ifstore", "store", "exit"
@@ -75,6 +78,9 @@ type Op struct {
 	// Sub: load: "" = dword(s); "u8", "i8", "u16" = flat_load_ubyte / sbyte / ushort of the byte or
 	// halfword at byte offset Imm (0-3; 0 or 2 for u16) inside element A & (len-1)
 	Sub string `json:"sub,omitempty"`
+	// Rep (sload with N = 1): a burst of Rep (2..MaxSBurst) back-to-back s_load_dword of consecutive
+	// dwords into different registers, waited for together; the value is the XOR of all of them
+	Rep int `json:"rep,omitempty"`
 	// N: sload: number of dwords (1, 2, 4, 8); load: 0/1 = one dword, 2 or 4 = a dwordx2/x4 load of
 	// consecutive dwords starting at element (A & (len/2-1)) + Imm (Imm in 0..3, so the access is only
 	// dword-aligned and may cross a cache line), XOR-ed together
@@ -344,6 +350,8 @@ func (p *Program) Validate() error {
 				err = fmt.Errorf("bad scalar load width")
 			} else if o.Imm%4 != 0 || int(o.Imm)/4+o.N > 1<<p.InLog2[o.K] {
 				err = fmt.Errorf("scalar load out of range")
+			} else if o.Rep != 0 && (o.N != 1 || o.Rep < 2 || o.Rep > MaxSBurst || int(o.Imm)/4+o.Rep > 1<<p.InLog2[o.K]) {
+				err = fmt.Errorf("bad scalar load burst")
 			}
 		case "lds":
 			err = ref(o.A)
